@@ -711,3 +711,9 @@ package bitcoin_reader
 //@   loop 1
 //@     modifies m.nodes, elems(m.nodes), m.nextNodeOffset, allof(BitcoinNode.Mutex), allelems(fmt.Stringer)
 //@     invariant nodesOK(m) && arr(m.nodes) == atentry(arr(m.nodes))
+
+// Package-wide frames for C06: the received mark of an entry is only written by AddTx (which only stores a non-nil
+// stamp), and entries enter or leave a bucket only through AddTxID, AddTx and Clean (retention), so between two
+// cleans a marked transaction stays marked and is never forwarded again.
+//@ static writers TxData.Received : (*TxManager).AddTx [C06]
+//@ static writers txMap.txs : newTxMap, (*TxManager).AddTxID, (*TxManager).AddTx, (*TxManager).Clean [C06]
